@@ -201,7 +201,7 @@ Regular(i) == IF i = 0 THEN TRUE
                    IF p \notin Stored THEN TRUE
                    ELSE rows[i].height = rows[p].height + 1 /\ Regular(p)
 
-ByHash(i) == IF i \in Stored THEN [ok |-> i] ELSE [err |-> 404]
+ByHash(i) == IF i \in Stored THEN [ok |-> i, st |-> rows[i].st, ht |-> rows[i].height] ELSE [err |-> 404]
 
 \* must \subseteq answer \subseteq may
 ByHeight(h, n) ==
